@@ -51,6 +51,7 @@ class Outcome:
     log: list[Any]
     state: Any = None
     raise_node: ast.AST | None = None
+    post: Any = None
 
 
 class Obj:
@@ -106,8 +107,12 @@ class Interp:
         self.pos += 1
         return d
 
-    def explore(self, fn: FuncNode, make_args: Callable[[], dict[str, Any]]) -> list[Outcome]:
-        """All abstract paths of `fn`; `make_args` may itself call choose() to fork inputs."""
+    def explore(self, fn: FuncNode, make_args: Callable[[], dict[str, Any]],
+                post: Callable[[Any], Any] | None = None) -> list[Outcome]:
+        """All abstract paths of `fn`; `make_args` may itself call choose() to fork inputs.
+
+        `post(result)` runs inside the same abstract run (it may force further decisions, e.g. to
+        decide a post-condition exactly); its value is stored in Outcome.post."""
         pending: list[list[int]] = [[]]
         outcomes: list[Outcome] = []
         runs = 0
@@ -128,7 +133,9 @@ class Interp:
                 args = make_args()
                 try:
                     val = self.call_node(fn, args)
+                    post_val = post(val) if post is not None else None
                     out = Outcome("return", val, [], [], self.log, self.snapshot())
+                    out.post = post_val
                 except _Raise as r:
                     out = Outcome("raise", r.name, [], [], self.log, self.snapshot(), r.node)
             except Infeasible:
